@@ -97,7 +97,7 @@ def _cases(draw):
         cfg["scalars"] = scalar_cfg
     headers = {}
     if d.bool(0.5):
-        headers = {"Authorization": "$VF_TOKEN", "X-Plain": "v"}
+        headers = {"Authorization": "$VF_TOKEN", "X-Plain": "v", "X-Mid": "k3y$VF_TOKEN!9", "X-Brace": "sig=${VF_TOKEN}"}
         d.tag("intro.headers")
     return {"kind": "deliveries", "sdl": sdl, "queries": queries, "config": cfg, "tree": tree, "tree_root": tree_root, "headers": headers,
             "verify": d.bool(0.5), "ops": [{"name": o["name"], "kind": o["kind"], "vars": o["vars"]} for o in ops],
@@ -363,7 +363,7 @@ def run_fault(case, scratch):
 
     httpx.post = fake_post
     os.environ["VF_TOKEN"] = SECRET
-    headers = {"Authorization": "$VF_TOKEN", "X-Plain": "v"} if case["env_header"] else {"X-Plain": "v"}
+    headers = {"Authorization": "$VF_TOKEN", "X-Plain": "v", "X-Mid": "k3y$VF_TOKEN!9", "X-Brace": "sig=${VF_TOKEN}"} if case["env_header"] else {"X-Plain": "v"}
     section = {"remote_schema_url": url, "remote_schema_headers": headers, "remote_schema_verify_ssl": case["verify"]}
     with open(os.path.join(scratch, "queries.graphql"), "w") as fh:
         fh.write("query Q { __typename }\n")
